@@ -120,6 +120,14 @@ impl<I: RecvmsgSyscall> RecvmsgSyscall for NioRecvmsgSyscall<I> {
                 }
                 let error_kind = Error::last_os_error().kind();
                 if error_kind == ErrorKind::WouldBlock {
+                    if !blocking {
+                        // the caller put the descriptor in non-blocking mode: report the would-block, never wait
+                        std::mem::forget(vec);
+                        if received > 0 {
+                            r = received.try_into().expect("received overflow");
+                        }
+                        return r;
+                    }
                     //wait read event
                     left_time = start_time
                         .saturating_add(recv_time_limit(fd))
